@@ -23,14 +23,17 @@ import (
 // ---------- W-lb: a real cluster + load balancer, lookups racing with
 // host-set replacements and health flips under the controlled scheduler ----------
 
-type lbCtx struct{ ctx context.Context }
+type lbCtx struct {
+	ctx   context.Context
+	route api.Route
+}
 
 func (c *lbCtx) MetadataMatchCriteria() api.MetadataMatchCriteria { return nil }
 func (c *lbCtx) DownstreamConnection() net.Conn                   { return nil }
 func (c *lbCtx) DownstreamHeaders() api.HeaderMap                 { return nil }
 func (c *lbCtx) DownstreamContext() context.Context               { return c.ctx }
 func (c *lbCtx) DownstreamCluster() types.ClusterInfo             { return nil }
-func (c *lbCtx) DownstreamRoute() api.Route                       { return nil }
+func (c *lbCtx) DownstreamRoute() api.Route                       { return c.route }
 
 type opRec struct {
 	kind     string // lookup | flip | update
@@ -70,7 +73,7 @@ func (w *LB) tick() int {
 	return w.seq
 }
 
-var lbPolicies = []string{"LB_RANDOM", "LB_ROUNDROBIN", "LB_WEIGHTED_ROUNDROBIN", "LB_LEAST_REQUEST", "LB_LEAST_CONNECTION", "LB_PEAK_EWMA", "LB_REQUEST_ROUNDROBIN"}
+var lbPolicies = []string{"LB_RANDOM", "LB_ROUNDROBIN", "LB_WEIGHTED_ROUNDROBIN", "LB_LEAST_REQUEST", "LB_LEAST_CONNECTION", "LB_PEAK_EWMA", "LB_REQUEST_ROUNDROBIN", "LB_MAGLEV"}
 
 // RunLB is one W-lb run; prop selects the arm (C05: membership/health under
 // concurrency, C06: WRR bounded lag).
@@ -92,6 +95,7 @@ func RunLB(s *sim.Sim, prop string, uniq string) *LB {
 		return w
 	}
 	w.Policy = pickFrom(ch, "params", "policy", lbPolicies)
+	w.Stats["policy:"+w.Policy]++
 	w.Conc = ch.Bool("params", "concurrent")
 	var arm []string
 	if w.Conc {
@@ -144,6 +148,25 @@ func RunLB(s *sim.Sim, prop string, uniq string) *LB {
 	c.UpdateHosts(first)
 	w.ops = append(w.ops, &opRec{kind: "update", inv: 0, ret: 0, gen: 0})
 
+	// maglev hashes the request: a real route with a source-address hash policy, a drawn source address per lookup
+	var hashRoute api.Route
+	if w.Policy == "LB_MAGLEV" {
+		rc := &v2.RouterConfiguration{RouterConfigurationConfig: v2.RouterConfigurationConfig{RouterConfigName: "mg" + uniq}}
+		rc.VirtualHosts = []v2.VirtualHost{{Name: "vh", Domains: []string{"*"}, Routers: []v2.Router{{RouterConfig: v2.RouterConfig{
+			Match: v2.RouterMatch{Prefix: "/"},
+			Route: v2.RouteAction{RouterActionConfig: v2.RouterActionConfig{ClusterName: "lb" + uniq, HashPolicy: []v2.HashPolicy{{SourceIP: &v2.SourceIPHashPolicy{}}}}},
+		}}}}}
+		if rs, err := router.NewRouters(rc); err == nil && rs != nil {
+			mctx := variable.NewVariableContext(context.Background())
+			_ = variable.SetString(mctx, types.VarPath, "/x")
+			hashRoute = rs.MatchRoute(mctx, protocol.CommonHeader(map[string]string{}))
+		}
+		if hashRoute == nil {
+			s.Violate("C05", "harness_no_hash_route", "could not build a route with a hash policy")
+			return w
+		}
+	}
+
 	type task func()
 	var tasks []task
 	// lookups
@@ -158,11 +181,14 @@ func RunLB(s *sim.Sim, prop string, uniq string) *LB {
 				snap := c.Snapshot()
 				var h types.Host
 				retries := 1
-				if w.Policy == "LB_REQUEST_ROUNDROBIN" {
-					retries = 2 // re-entry with the same context (retry)
+				if w.Policy == "LB_REQUEST_ROUNDROBIN" || w.Policy == "LB_MAGLEV" {
+					retries = 1 + ch.Pick("work", "reentries", 3) // re-entry with the same context (retry)
+				}
+				if hashRoute != nil {
+					_ = variable.Set(ctx, types.VariableOriRemoteAddr, net.Addr(&net.TCPAddr{IP: net.IPv4(10, 7, byte(ch.Pick("work", "srcip", 256)), byte(ch.Pick("work", "srcip2", 256))), Port: 1000 + ch.Pick("work", "srcport", 5000)}))
 				}
 				for r := 0; r < retries; r++ {
-					h = snap.LoadBalancer().ChooseHost(&lbCtx{ctx})
+					h = snap.LoadBalancer().ChooseHost(&lbCtx{ctx, hashRoute})
 				}
 				op.ret = w.tick()
 				if g, ok := w.setOf[snap.HostSet()]; ok {
@@ -400,7 +426,7 @@ func (w *LB) runWRR() {
 	}
 	c.UpdateHosts(set)
 	lb := c.Snapshot().LoadBalancer()
-	ctx := &lbCtx{context.Background()}
+	ctx := &lbCtx{ctx: context.Background()}
 	addrIdx := map[string]int{}
 	for i, h := range hs {
 		addrIdx[h.AddressString()] = i
@@ -495,7 +521,6 @@ func (w *LB) runWRR() {
 	}
 	s.SigAdd(fmt.Sprint("wrr", sig, unhealthy, len(idx) > 100))
 }
-
 
 // ---------- C06 (i): a route's weighted clusters under every value of the random draw ----------
 //
